@@ -268,6 +268,28 @@ func capIsLen(v ssa.Value) bool {
 // []byte("…") conversion, a composite literal of constants, or a fresh
 // make([]byte, k) / [k]byte that is only ever read (all zero).
 func (e *Engine) ConstBytes(v ssa.Value) ([]byte, bool) {
+	return e.constBytes(v, nil)
+}
+
+// ConstBytesRO is ConstBytes, and additionally accepts a load of an unexported
+// package-level variable of the module that is written by nothing but its
+// initialiser anywhere in the module and whose loads are only ever read
+// (`var magic = []byte("…")`): its bytes are the same at every call.
+func (e *Engine) ConstBytesRO(v ssa.Value) ([]byte, bool) {
+	if b, ok := e.constBytes(v, nil); ok {
+		return b, true
+	}
+	if ld, ok := Strip(v).(*ssa.UnOp); ok && ld.Op == token.MUL {
+		if g, ok := ld.X.(*ssa.Global); ok && !token.IsExported(g.Name()) {
+			return e.globalConst(g)
+		}
+	}
+	return nil, false
+}
+
+// constBytes: except is one referrer that is known not to write the bytes (the
+// store of a package-level variable's initialiser into that variable).
+func (e *Engine) constBytes(v ssa.Value, except ssa.Instruction) ([]byte, bool) {
 	v = Strip(v)
 	switch x := v.(type) {
 	case *ssa.Const:
@@ -276,8 +298,11 @@ func (e *Engine) ConstBytes(v ssa.Value) ([]byte, bool) {
 		}
 		return nil, false
 	case *ssa.Convert:
-		if b, ok := e.ConstBytes(x.X); ok {
+		if b, ok := e.constBytes(x.X, nil); ok {
 			for _, r := range *x.Referrers() {
+				if r == except {
+					continue
+				}
 				if !e.readOnlyUse(x, r, 0) {
 					return nil, false
 				}
@@ -352,6 +377,9 @@ func (e *Engine) ConstBytes(v ssa.Value) ([]byte, bool) {
 				}
 			case *ssa.Slice:
 				for _, rr := range *y.Referrers() {
+					if rr == except {
+						continue
+					}
 					if !e.readOnlyUse(y, rr, 0) {
 						return nil, false
 					}
@@ -363,6 +391,80 @@ func (e *Engine) ConstBytes(v ssa.Value) ([]byte, bool) {
 		return buf[lo:hi], true
 	}
 	return nil, false
+}
+
+// globalConst decodes the bytes of a package-level []byte / string variable of
+// the module whose only store in the whole module is its initialiser (in the
+// synthetic package init) and whose every other use is a load that is only
+// read. Nothing can then change the bytes between two calls.
+func (e *Engine) globalConst(g *ssa.Global) ([]byte, bool) {
+	if e.globals == nil {
+		e.globals = map[*ssa.Global]*globalBytes{}
+	}
+	if c, ok := e.globals[g]; ok {
+		return c.b, c.ok
+	}
+	res := &globalBytes{}
+	e.globals[g] = res
+	if g.Pkg == nil || !strings.HasPrefix(g.Pkg.Pkg.Path(), e.P.ModPath) {
+		return nil, false
+	}
+	fns := append([]*ssa.Function{}, e.P.SrcFuncs()...)
+	for path, sp := range e.P.SSAPkgs {
+		if strings.HasPrefix(path, e.P.ModPath) {
+			if f := sp.Func("init"); f != nil {
+				fns = append(fns, f)
+			}
+		}
+	}
+	var init *ssa.Store
+	for _, fn := range fns {
+		for _, b := range fn.Blocks {
+			for _, in := range b.Instrs {
+				uses := false
+				for _, op := range in.Operands(nil) {
+					if *op == ssa.Value(g) {
+						uses = true
+					}
+				}
+				if !uses {
+					continue
+				}
+				switch y := in.(type) {
+				case *ssa.DebugRef:
+				case *ssa.Store:
+					if y.Addr != ssa.Value(g) || init != nil || fn.Synthetic == "" || fn.Pkg != g.Pkg {
+						return nil, false
+					}
+					init = y
+				case *ssa.UnOp:
+					if y.Op != token.MUL {
+						return nil, false
+					}
+					for _, r := range *y.Referrers() {
+						if !e.readOnlyUse(y, r, 0) {
+							return nil, false
+						}
+					}
+				default:
+					return nil, false // the variable's address is taken
+				}
+			}
+		}
+	}
+	if init == nil {
+		return nil, false
+	}
+	b, ok := e.constBytes(init.Val, init)
+	if ok {
+		res.b, res.ok = b, true
+	}
+	return res.b, res.ok
+}
+
+type globalBytes struct {
+	b  []byte
+	ok bool
 }
 
 func AllZero(b []byte) bool {
@@ -382,6 +484,46 @@ func AllZero(b []byte) bool {
 type Seg struct {
 	V    ssa.Value
 	Wrap []string
+	// N > 0: the segment is the N-byte fixed-width encoding of the integer V
+	// (binary.{Little,Big}Endian.AppendUintN); BE tells the byte order.
+	N  int
+	BE bool
+}
+
+// Len is the static byte length of the segment (-1 when the shape does not fix it).
+func (s Seg) Len() int {
+	if s.N > 0 {
+		return s.N
+	}
+	if len(s.Wrap) > 0 {
+		return -1
+	}
+	return StaticLen(s.V)
+}
+
+// binaryAppend recognises binary.{Little,Big}Endian.AppendUintN(b, v).
+func binaryAppend(cc *ssa.CallCommon) (n int, be, ok bool) {
+	f := cc.StaticCallee()
+	if f == nil || len(cc.Args) != 3 {
+		return 0, false, false
+	}
+	name := f.String()
+	for _, o := range []struct {
+		p  string
+		be bool
+	}{{"(encoding/binary.littleEndian).AppendUint", false}, {"(encoding/binary.bigEndian).AppendUint", true}} {
+		if strings.HasPrefix(name, o.p) {
+			switch strings.TrimPrefix(name, o.p) {
+			case "16":
+				return 2, o.be, true
+			case "32":
+				return 4, o.be, true
+			case "64":
+				return 8, o.be, true
+			}
+		}
+	}
+	return 0, false, false
 }
 
 // Distributive: a label whose function maps a concatenation to the
@@ -420,6 +562,26 @@ func (e *Engine) segs(v ssa.Value, dist Distributive, d int) []Seg {
 			tail := e.segs(cc.Args[1], dist, d+1)
 			return append(dropEmpty(head), dropEmpty(tail)...)
 		}
+		if f := cc.StaticCallee(); f != nil {
+			name := f.String()
+			switch {
+			case (name == "bytes.Clone" || strings.HasPrefix(name, "slices.Clone[")) && len(cc.Args) == 1:
+				// a copy of the bytes: same concatenation
+				return e.segs(cc.Args[0], dist, d+1)
+			case strings.HasPrefix(name, "slices.Concat[") && len(cc.Args) == 1:
+				if parts, ok := VarArgs(cc.Args[0]); ok && len(parts) > 0 {
+					var out []Seg
+					for _, p := range parts {
+						out = append(out, dropEmpty(e.segs(p, dist, d+1))...)
+					}
+					return out
+				}
+			}
+		}
+		if n, be, ok := binaryAppend(cc); ok {
+			head := e.segs(cc.Args[1], dist, d+1)
+			return append(dropEmpty(head), Seg{V: cc.Args[2], N: n, BE: be})
+		}
 		label := e.CalleeLabel(cc)
 		if dist != nil && dist(label) && len(cc.Args) == 1 {
 			inner := e.segs(cc.Args[0], dist, d+1)
@@ -438,7 +600,7 @@ func (e *Engine) segs(v ssa.Value, dist Distributive, d int) []Seg {
 func dropEmpty(ss []Seg) []Seg {
 	var out []Seg
 	for _, s := range ss {
-		if len(s.Wrap) == 0 && StaticLen(s.V) == 0 {
+		if len(s.Wrap) == 0 && s.N == 0 && StaticLen(s.V) == 0 {
 			continue
 		}
 		out = append(out, s)
@@ -766,6 +928,21 @@ func (e *Engine) DeepHash(v ssa.Value, dist Distributive) (*HashDesc, string) {
 			}
 		case *ssa.Function, *ssa.Const:
 			return x, true
+		case *ssa.Slice:
+			// key[:] of an array parameter (spilled to a cell because it is sliced)
+			if y.Low == nil && y.High == nil && y.Max == nil {
+				if a, ok := y.X.(*ssa.Alloc); ok {
+					if st := arrayCellStore(a); st != nil {
+						if p, isP := st.Val.(*ssa.Parameter); isP {
+							for i, q := range g.Params {
+								if q == p && i < len(call.Common().Args) {
+									return call.Common().Args[i], true
+								}
+							}
+						}
+					}
+				}
+			}
 		}
 		return nil, false
 	}
@@ -778,12 +955,20 @@ func (e *Engine) DeepHash(v ssa.Value, dist Distributive) (*HashDesc, string) {
 		d.CtorArgs = append(d.CtorArgs, b)
 	}
 	for _, sg := range e.HashInput(hg, dist) {
+		// f(param) for a distributive f: the call becomes a wrapper of the segment
+		for d := 0; d < 8 && dist != nil; d++ {
+			c, isC := Strip(sg.V).(*ssa.Call)
+			if !isC || len(c.Common().Args) != 1 || !dist(e.CalleeLabel(c.Common())) {
+				break
+			}
+			sg = Seg{V: c.Common().Args[0], Wrap: append(append([]string{}, sg.Wrap...), e.CalleeLabel(c.Common()))}
+		}
 		b, ok := bind(sg.V)
 		if !ok {
 			return nil, "helper " + e.Name(g) + ": hashed segment " + Expr(sg.V) + " is not a parameter of the helper"
 		}
 		for _, inner := range e.Segs(b, dist) {
-			d.Input = append(d.Input, Seg{V: inner.V, Wrap: append(append([]string{}, sg.Wrap...), inner.Wrap...)})
+			d.Input = append(d.Input, Seg{V: inner.V, Wrap: append(append([]string{}, sg.Wrap...), inner.Wrap...), N: inner.N, BE: inner.BE})
 		}
 	}
 	return d, ""
